@@ -1133,6 +1133,7 @@ fn run_tests(
                     ref input,
                     ref output,
                     ref attributes_str,
+                    ref attributes,
                     header_delim_len,
                     divider_delim_len,
                     ..
@@ -1141,7 +1142,12 @@ fn run_tests(
                 {
                     if opts.update {
                         let input = String::from_utf8(input.clone()).unwrap();
-                        let output = format_sexp(output, 0);
+                        // The expected output of a `:cst` test is not an S-expression.
+                        let output = if attributes.cst {
+                            output.clone()
+                        } else {
+                            format_sexp(output, 0)
+                        };
                         corrected_entries.push(TestCorrection::new(
                             name,
                             input,
